@@ -19,7 +19,12 @@ type MetaData struct {
 
 // CopyNew returns a copy of the target.
 func (m MetaData) CopyNew() *MetaData {
-	return &m
+	cpy := m
+	cpy.Scale.Value = *new(big.Float).Copy(&m.Scale.Value)
+	if m.Scale.Mod != nil {
+		cpy.Scale.Mod = new(big.Int).Set(m.Scale.Mod)
+	}
+	return &cpy
 }
 
 func (m *MetaData) Equal(other *MetaData) (res bool) {
